@@ -1,7 +1,7 @@
 CONSTANTS Pgnos = {256, 257, 258, 273, 369, 427} Subnos = {} Sizes = {} Fns = {} NSlots = 6 NNSlots = 3
-  MaxOps = 1000000 MaxPuts = 1000000 Limits = {0} NetLimit = 1 Policy = "any" SkipCollected = TRUE
+  MaxOps = 1000000 MaxPuts = 1000000 Limits = {0} NetLimit = 1 Policy = "any" SkipCollected = TRUE ExactFirst = TRUE
   GetMasks = {} ClockVals = {} MaxNets = 1000000
 SPECIFICATION TSpec
-INVARIANTS RefsAreHandles HeldAlive ListsOK WithinLimit NetsOK StatOK
+INVARIANTS RefsAreHandles HeldAlive ListsOK WithinLimit NetsOK StatOK UniqueKey
 POSTCONDITION TraceAccepted
 CHECK_DEADLOCK FALSE
